@@ -2,7 +2,7 @@
    Property theorems only; CS is the state type of arbitrary (also user-defined) checks. *)
 From Coq Require Import String.
 From CP Require Import Model.Base Model.Ranges Model.Fields Model.Validio Model.ValidioInst Spec.ValidioSpec Proofs.ValidioProofs.
-From CP Require Import Model.Location Proofs.LocationProofs.
+From CP Require Import Model.Location Proofs.LocationProofs Generated.LocationOps Proofs.LocationGen.
 
 (* accepted <-> right number of items, every item accepted by the field in its position, every row check passes *)
 Theorem row_accept_iff : forall (CS : Type) (c : cid CS) sts l row,
@@ -58,6 +58,17 @@ Proof.
     + left. rewrite Hl. cbn [l_cell set_cell]. split; [exact Hf|]. split; [exact Hb|exact Hfield].
     + right. split; [rewrite Hf; discriminate|]. left. rewrite Hl. reflexivity.
 Qed.
+
+(* the location model is the source: the operations on the counters and the printed text, as the translator regenerates
+   them from cutplace/errors.py (class Location) on every run, are the functions the theorems above speak about; so the
+   text of the source as it is now names row and column *)
+Theorem location_model_is_what_the_source_says :
+  (forall l o, lstep l o = g_lstep l o) /\ (forall l, loc_text l = g_str l)
+  /\ g_advance_column_default_amount = 1%nat /\ g_advance_cell_default_amount = 1%nat /\ g_advance_line_default_amount = 1%nat.
+Proof. split; [exact lstep_generated|]. split; [exact loc_text_generated|]. exact defaults_generated. Qed.
+Theorem source_text_names_row_and_column : forall l : location, lo_has_cell l = true -> lo_has_column l = false ->
+  rc_of_text (g_str l) = Some (Z.of_nat (lo_line l) + 1, Z.of_nat (lo_cell l) + 1)%Z.
+Proof. intros l H1 H2. rewrite <- loc_text_generated. exact (loc_text_names_row_and_cell l H1 H2). Qed.
 
 Example location_text_example :
   option_map loc_text (lsteps (new_location (txt "some/dir/data (R9C9).csv") false true false) [LAdvLine 1; LAdvLine 1; LSetCell 4])
